@@ -39,16 +39,43 @@ def delim (c : EncCfg) : Str :=
 /-- Python `str.strip()` without argument -/
 def pyStrip (s : Str) : Str := ((s.dropWhile isSpace).reverse.dropWhile isSpace).reverse
 
+/-- stand-in for a white-space character shielded from `textwrap` -/
+def standIn (c : Nat) : Nat := 0xF000 + c
+def isShieldable (c : Nat) : Bool := c == 32 || c == 9 || c == 10 || c == 13 || c == 11 || c == 12
+def isStandIn (c : Nat) : Bool := c ≥ 0xF000 && isShieldable (c - 0xF000)
+
+/-- quote characters inside which lines may still be broken (`_wrappable_quotes`) -/
+def wrappableQuotes (c : EncCfg) : List Nat := if isOdlFamily c then [34] else []
+
+/-- `_protect_whitespace`: inside quoted strings (not the wrappable ones) and units expressions the
+    white-space characters are swapped for stand-ins. -/
+def protectGo (c : EncCfg) : Str → Option Nat → Option Nat → Str
+  | [], _, _ => []
+  | ch :: r, none, prev =>
+    let e : Option Nat :=
+      if c.g.quotes.contains ch && !(wrappableQuotes c).contains ch then some ch
+      else if ch == c.g.unitsDelims.1 then some c.g.unitsDelims.2
+      else none
+    -- no line break right after a dash (it would read back as a dash-continuation)
+    (if prev == some 45 && isShieldable ch then standIn ch else ch) :: protectGo c r e (some ch)
+  | ch :: r, some e, _ =>
+    (if isShieldable ch then standIn ch else ch) :: protectGo c r (if ch == e then none else some e) (some ch)
+
+def protect (c : EncCfg) (s : Str) : Str :=
+  if s.any isStandIn then s else protectGo c s none none
+
+def restore (s : Str) : Str := s.map (fun ch => if isStandIn ch then ch - 0xF000 else ch)
+
 /-- `PVLEncoder.format` (encoder.py:183) -/
 def format (c : EncCfg) (s : Str) (level : Nat) : Except EErr Str :=
   let pre := List.replicate (level * c.indent) 32
-  if (pre ++ s ++ c.newline).length > c.width && s.contains 61 then
-    let (preq, _, posteq) := partitionChar s 61
+  let (preq, _, posteq) := partitionChar s 61
+  if (pre ++ s ++ c.newline).length > c.width && !(pyStrip posteq).isEmpty then
     let newPre := pre ++ pyStrip preq ++ [32, 61, 32]
-    match wrap (pyStrip posteq) ((c.width : Int) - c.newline.length) newPre
+    match wrap (protect c (pyStrip posteq)) ((c.width : Int) - c.newline.length) newPre
         (List.replicate newPre.length 32) with
     | none => .error .value
-    | some lines => .ok (join c.newline lines)
+    | some lines => .ok (restore (join c.newline lines))
   else .ok (pre ++ s)
 
 def pad (n w : Nat) : Str :=
@@ -57,8 +84,8 @@ def pad (n w : Nat) : Str :=
 
 def natStr (n : Nat) : Str := (toString n).toList.map Char.toNat
 
-/-- `f"{value:%Y-%m-%d}"` with this platform's `strftime` (year not zero-padded) -/
-def encodeDate (y m d : Nat) : Str := natStr y ++ [45] ++ pad m 2 ++ [45] ++ pad d 2
+/-- `f"{value.year:04d}-{value:%m-%d}"` -/
+def encodeDate (y m d : Nat) : Str := pad y 4 ++ [45] ++ pad m 2 ++ [45] ++ pad d 2
 
 /-- `PVLEncoder.encode_time` (encoder.py:437) -/
 def encodeTimeBase (h mi s us : Nat) : Str :=
@@ -66,25 +93,13 @@ def encodeTimeBase (h mi s us : Nat) : Str :=
     (if us != 0 then [58] ++ pad s 2 ++ [46] ++ pad us 6
      else if s != 0 then [58] ++ pad s 2 else [])
 
-/-- `str(timedelta)` for an offset of `off` seconds, split on ':' as `ODLEncoder.encode_time` does:
-    (h, m, s) texts. -/
-def tdParts (off : Int) : Str × Str × Str :=
-  let days : Int := off.fdiv 86400
-  let rem : Nat := (off.fmod 86400).toNat
-  let h := rem / 3600
-  let m := (rem % 3600) / 60
-  let s := rem % 60
-  let dayPart : Str :=
-    if days == 0 then []
-    else (toString days).toList.map Char.toNat ++ (if days == 1 || days == -1 then " day, " else " days, ").toList.map Char.toNat
-  (dayPart ++ natStr h, pad m 2, pad s 2)
-
-/-- `f"{h:0>2}"` -/
-def padLeft0 (s : Str) (w : Nat) : Str := List.replicate (w - s.length) 48 ++ s
-
 def encodeTime (c : EncCfg) (h mi s us : Nat) (tz : Option Int) : Except EErr Str :=
   match c.kind with
-  | .pvl | .isis => .ok (encodeTimeBase h mi s us)
+  | .pvl | .isis =>
+    -- PVL has no notation for a zone: anything but UTC is refused
+    (match tz with
+     | some off => if off != 0 then .error .value else .ok (encodeTimeBase h mi s us)
+     | none => .ok (encodeTimeBase h mi s us))
   | .odl =>
     match tz with
     | none => .error .value
@@ -92,15 +107,20 @@ def encodeTime (c : EncCfg) (h mi s us : Nat) (tz : Option Int) : Except EErr St
       let t := encodeTimeBase h mi s us
       if off == 0 then .ok (t ++ [90])
       else
-        let (hh, mm, ss) := tdParts off
-        if ss != [48, 48] then .error .value
-        else if mm == [48, 48] then .ok (t ++ [43] ++ padLeft0 hh 2)
-        else .ok (t ++ [43] ++ padLeft0 hh 2 ++ [58] ++ mm)
+        let a := off.natAbs
+        if a % 60 != 0 then .error .value
+        else
+          let hh := a / 3600
+          let mm := (a % 3600) / 60
+          if hh > 12 then .error .value
+          else
+            let sg : Nat := if off < 0 then 45 else 43
+            .ok (t ++ [sg] ++ pad hh 2 ++ (if mm == 0 then [] else [58] ++ pad mm 2))
   | .pds =>
     if us % 1000 != 0 then .error .value
     else
       let base := pad h 2 ++ [58] ++ pad mi 2 ++
-        (if us != 0 then [58] ++ pad s 2 ++ [46] ++ natStr (us / 1000)
+        (if us != 0 then [58] ++ pad s 2 ++ [46] ++ pad (us / 1000) 3
          else if s != 0 then [58] ++ pad s 2 else [])
       match tz with
       | none => .ok (if c.timeTrailingZ then base ++ [90] else base)
@@ -112,15 +132,27 @@ def isSymbol (c : EncCfg) (s : Str) : Bool :=
   !s.contains 39 && !(c.g.formatEffectors.any (fun f => s.contains f)) &&
     !(2 * s.length > c.width) && s.all isPrintable && !s.isEmpty
 
-/-- `PVLEncoder.needs_quotes` (encoder.py:458) / `ODLEncoder.needs_quotes` (:633) -/
-def needsQuotes (c : EncCfg) (s : Str) : Except EErr Bool :=
-  if isOdlFamily c then .ok (!isIdentifier s)
-  else if c.g.whitespace.any (fun w => s.contains w) then .ok true
+/-- `PVLEncoder.needs_quotes` (encoder.py:458) -/
+def needsQuotesBase (c : EncCfg) (s : Str) : Except EErr Bool :=
+  if c.g.whitespace.any (fun w => s.contains w) then .ok true
   else if c.g.reservedKeywords.contains s then .ok true
   else match Tok.isUnquotedString c.d s with
-    | .ok b => .ok (!b)
     | .error .type => .error .type
     | .error .value => .error .value
+    | .ok b =>
+      if s.isEmpty || !b then .ok true
+      else if endsWith s [45] then .ok true
+      else match decodeSimple c.d s with
+        | .ok (.str t) => .ok (t != s)
+        | .ok _ => .ok true
+        | .error .value => .ok true
+        | .error .type => .error .type
+
+/-- `needs_quotes` of each class (`ODLEncoder.needs_quotes`, :633, adds the identifier rule) -/
+def needsQuotes (c : EncCfg) (s : Str) : Except EErr Bool :=
+  if isOdlFamily c then
+    (if !isIdentifier s then .ok true else needsQuotesBase c s)
+  else needsQuotesBase c s
 
 /-- `PVLEncoder.encode_string` (encoder.py:471) -/
 def encodeStringBase (c : EncCfg) (s : Str) (nq : Bool) : Except EErr Str :=
@@ -138,13 +170,21 @@ def encodeString (c : EncCfg) (s : Str) : Except EErr Str :=
     | .ok nq => encodeStringBase c s nq
     | .error e => .error e
   | .odl =>
-    if isIdentifier s then .ok s
-    else if isSymbol c s then .ok ([39] ++ s ++ [39])
-    else encodeStringBase c s (!isIdentifier s)
+    match needsQuotes c s with
+    | .error e => .error e
+    | .ok false => .ok s
+    | .ok true =>
+      if isSymbol c s then .ok ([39] ++ s ++ [39])
+      else encodeStringBase c s true
   | .pds =>
-    if isIdentifier s then .ok s
-    else if isSymbol c s && c.symbolSingleQuote then .ok ([39] ++ s ++ [39])
-    else encodeStringBase c s (!isIdentifier s)
+    match needsQuotes c s with
+    | .error e => .error e
+    | .ok false => .ok s
+    | .ok true =>
+      if isSymbol c s && c.symbolSingleQuote then .ok ([39] ++ s ++ [39])
+      else
+        -- `super(ODLEncoder, self).encode_string`: PVLEncoder's, with this class's needs_quotes
+        encodeStringBase c s true
 
 /-- the exponent check of `ODLEncoder.encode_units`: every `**` followed by a character (not a
     newline) must be followed by a decimal digit. -/
@@ -353,13 +393,16 @@ def sizeOf' : Nat → Items → Nat
       | .cont _ inner => n + 1 + sizeOf' f inner
       | _ => n + 1) 1
 
-/-- `module[k] = objcls(v)` — `OrderedMultiDict.__setitem__` on a present key: replace the first
-    occurrence, drop the later ones (C10's `assign`). -/
-def setitemPresent (items : Items) (k : Str) (v : Val) : Items :=
-  let rec go : Items → Items
-    | [] => []
-    | (k', v') :: r => if k' == k then (k, v) :: r.filter (fun p => p.1 != k) else (k', v') :: go r
-  go items
+/-- `_group_to_object`: the first item satisfying `p` has its class changed to OBJECT, in place;
+    every other item stays where it is. -/
+def convertFirst (p : Str × Val → Bool) : Items → Option Items
+  | [] => none
+  | (k, v) :: r =>
+    if p (k, v) then
+      (match v with
+       | .cont _ inner => some ((k, .cont .object inner) :: r)
+       | _ => none)
+    else (convertFirst p r).map (fun r' => (k, v) :: r')
 
 /-- the group-to-object conversion at the top of `PDSLabelEncoder.encode` (encoder.py:932-960):
     the module after the in-place assignment, or the refusal. -/
@@ -367,12 +410,12 @@ def pdsConvert (c : EncCfg) (items : Items) : Except EErr Items :=
   let (o, g) := countAggs items
   if g > 0 && o < 1 then
     if c.convertGroupToObject then
-      match items.find? (fun p => match p.2 with | .cont .group inner => !isPDSgroup inner | _ => false) with
-      | some (k, .cont _ inner) => .ok (setitemPresent items k (.cont .object inner))
-      | _ =>
-        match items.find? (fun p => match p.2 with | .cont .group _ => true | _ => false) with
-        | some (k, .cont _ inner) => .ok (setitemPresent items k (.cont .object inner))
-        | _ => .error .value
+      match convertFirst (fun p => match p.2 with | .cont .group inner => !isPDSgroup inner | _ => false) items with
+      | some items' => .ok items'
+      | none =>
+        match convertFirst (fun p => match p.2 with | .cont .group _ => true | _ => false) items with
+        | some items' => .ok items'
+        | none => .error .value
     else .error .value
   else .ok items
 
